@@ -420,48 +420,62 @@ def orbit(spec, eps, x, r, lo, hi):
     return st, f
 
 
-def orbit_stationary(cuqi, impl, spec, eps, max_depth, x, r, e):
+def orbit_stationary(cuqi, impl, spec, eps, max_depth, x, r, e, all_targets=False, allow_ties=False):
     """Stationarity of the counting measure on the in-slice points of the orbit through (x, r) under the REAL kernel:
-    sum over in-slice, finite-density sources i of P(i -> 0) must be 1 (exact rational weights).
+    for the target position k = 0 (all_targets: every in-slice k within reach of 0) the sum over in-slice,
+    finite-density sources i of P(i -> k) must be 1 (exact rational weights).
     Returns None if it holds (or a decision margin is tiny / the step size 1.0 is not honoured by the legacy sampler),
-    else a description."""
+    else a description.  allow_ties: the arithmetic of this case is exact, so exact ties are meaningful."""
     if impl == "leg" and eps == 1:
         return None        # adapt_step_size=1.0 == True: the legacy sampler picks its own step size (reported separately)
     span = 2 ** (max_depth + 1) - 1
-    st, f = orbit(spec, eps, x, r, -2 * span - 1, 2 * span + 1)
+    reach = 2 * span if all_targets else span
+    st, f = orbit(spec, eps, x, r, -reach - span - 1, reach + span + 1)
     with np.errstate(all="ignore"):
         L = {i: float(f(s[0])) for i, s in st.items()}
         H = {i: L[i] - 0.5 * float(np.dot(s[1], s[1])) for i, s in st.items()}
     logu = H[0] - e
     if not np.isfinite(logu):
         return None
-    if any(abs(logu - h) < 1e-7 * (1 + abs(logu)) or abs(logu - 1000 - h) < 1e-7 * (1 + abs(logu)) for h in H.values() if np.isfinite(h)):
+    if not allow_ties and any(abs(logu - h) < 1e-7 * (1 + abs(logu)) or abs(logu - 1000 - h) < 1e-7 * (1 + abs(logu)) for h in H.values() if np.isfinite(h)):
         return None
     # distinct orbit points are needed to identify outcomes
     for i, s in st.items():
-        if any(np.allclose(s[0], t[0], rtol=1e-9, atol=1e-12) and j != i for j, t in st.items() if abs(j - i) <= 2 * span + 1 and j < i):
+        if any(np.allclose(s[0], t[0], rtol=1e-9, atol=1e-12) for j, t in st.items() if j < i):
             return None
-    total = Fraction(0)
-    parts = {}
-    for i in range(-span, span + 1):
-        if not (logu <= H[i]) or not np.isfinite(L[i]):
-            continue
-        law = kernel_from(cuqi, impl, spec, eps, max_depth, st[i][0], st[i][1], H[i] - logu)
-        if abs(float(sum(law.values())) - 1) > 1e-9:
-            return "enumerated weights from orbit position %d sum to %s" % (i, float(sum(law.values())))
-        for pt, w in law.items():
-            ks = [k for k in range(i - span, i + span + 1) if np.allclose(st[k][0], pt, rtol=1e-9, atol=1e-12)]
-            if not ks:
-                return "from orbit position %d the sampler moved to %s, which is not on the orbit" % (i, pt)
-            k = ks[0]
-            if w > 0 and (not (logu <= H[k]) or not np.isfinite(L[k])):
-                return "from orbit position %d a state outside the slice / with non-finite density (position %d) is selected with probability %s" % (i, k, float(w))
-            if k == 0:
-                total += w
-                parts[i] = parts.get(i, 0) + w
-    if abs(float(total) - 1) > 1e-9:
-        return ("the counting measure on the slice is not stationary on the orbit: sum_i P(i->0) = %s (%s), contributions %s"
-                % (float(total), total, {i: str(w) for i, w in sorted(parts.items())}))
+    inslice = lambda i: bool(logu <= H[i]) and bool(np.isfinite(L[i]))
+    targets = [k for k in range(-span, span + 1) if inslice(k)] if all_targets else [0]
+    laws = {}
+
+    def law_of(i):
+        if i not in laws:
+            law = kernel_from(cuqi, impl, spec, eps, max_depth, st[i][0], st[i][1], H[i] - logu)
+            idx = {}
+            for pt, w in law.items():
+                ks = [k for k in range(i - span, i + span + 1) if np.allclose(st[k][0], pt, rtol=1e-9, atol=1e-12)]
+                idx[ks[0] if ks else ("off-orbit", pt)] = idx.get(ks[0] if ks else ("off-orbit", pt), 0) + w
+            laws[i] = idx
+        return laws[i]
+    for k in targets:
+        total, parts = Fraction(0), {}
+        for i in range(k - span, k + span + 1):
+            if not inslice(i):
+                continue
+            law = law_of(i)
+            if abs(float(sum(law.values())) - 1) > 1e-9:
+                return "enumerated weights from orbit position %d sum to %s" % (i, float(sum(law.values())))
+            for kk, w in law.items():
+                if isinstance(kk, tuple):
+                    return "from orbit position %d the sampler moved to %s, which is not on the orbit" % (i, kk[1])
+                if w > 0 and not inslice(kk):
+                    return ("from orbit position %d a state outside the slice / with non-finite density (position %d, H=%r, log u=%r) is selected with probability %s"
+                            % (i, kk, H[kk], logu, float(w)))
+            if law.get(k):
+                total += law[k]
+                parts[i] = law[k]
+        if abs(float(total) - 1) > 1e-9:
+            return ("the counting measure on the slice is not stationary on the orbit: sum over in-slice i of P(i->%d) = %s (%s), contributions %s"
+                    % (k, float(total), total, {i: str(w) for i, w in sorted(parts.items())}))
     return None
 
 
@@ -735,7 +749,8 @@ def oracle(ctx, meta):
     z, e, us = meta["scripts"][0]
     if dim_of(spec) > 2 or (spec["kind"] == "quartic" and md > 1):
         return None
-    d = orbit_stationary(cuqi, meta["impl"], spec, meta["eps"], md, meta["x0"], z, e)
+    d = orbit_stationary(cuqi, meta["impl"], spec, meta["eps"], md, meta["x0"], z, e, all_targets=(md <= 1 or bool(meta.get("exact"))),
+                         allow_ties=bool(meta.get("exact")))
     if d:
         _ORACLE_BUDGET["confirmed"] += 1
     return d
@@ -801,6 +816,8 @@ def replay(ctx, meta):
     rc, out = eval_in_coq(IMPORTS, inner)
     print("model verdict (0 agree, 1 inconclusive, 2 disagree):", out)
     if not m.get("warm") and dim_of(m["target"]) <= 2:
+        md = min(m["max_depth"], 2)
         print("stationarity on the orbit through the start (real sampler, max_depth<=2):",
-              orbit_stationary(cuqi, m["impl"], m["target"], m["eps"], min(m["max_depth"], 2), m["x0"], scripts[0][0], scripts[0][1]) or "holds")
+              orbit_stationary(cuqi, m["impl"], m["target"], m["eps"], md, m["x0"], scripts[0][0], scripts[0][1],
+                               all_targets=(md <= 1 or bool(m.get("exact"))), allow_ties=bool(m.get("exact"))) or "holds")
     return 0
